@@ -167,6 +167,10 @@ func c19Pair(w *core.W, a, b model.Name, kind string) {
 		{"case-inverted", sa, flip(b).Pres()},
 		{"relative", a.PresRel(), b.PresRel()},
 		{"relative-case-inverted", flip(a).PresRel(), b.PresRel()},
+		// the root against a name written without the final dot: whatever origin completes it, the name
+		// lies below the root and shares no label with it (other absolute/relative mixes are not judged:
+		// a relative name and an absolute one spelled alike are different names)
+		{"root-and-relative", map[bool]string{true: sa}[len(a) == 0], b.PresRel()},
 	} {
 		if v.xa == "" || v.xb == "" {
 			continue
@@ -431,6 +435,7 @@ func c19Pairs(w *core.W, j int) {
 			names = append(names, n)
 		}
 	}
+	names = append(names, model.Name{}) // the root: parent of everything, sub-domain of itself only
 	for _, a := range names {
 		for _, b := range names {
 			c19Pair(w, a, b, "enumerated")
